@@ -230,6 +230,7 @@ fn mk(
         infinite_source: false,
         horizon: 0,
         no_retire_check: false,
+        warmup: vec![],
         horizon_delta: 0,
         prefix_spec: false,
         sync_check,
